@@ -297,7 +297,7 @@ def rule_e(ctx):
 def run(ctx):
     from .common import rule_abs_tolerance
     _m = ctx.model
-    rule_abs_tolerance(ctx, "C05.f", [f for mn in (WAS, "darsia.measure.emd") for k in _m.mod(mn).classes.values() for f in k.methods.values()] + list(_m.mod(WAS).funcs.values()),
+    rule_abs_tolerance(ctx, "C05.f", [f for mn in (WAS, "darsia.measure.emd", "darsia.utils.linalg") for k in _m.mod(mn).classes.values() for f in k.methods.values()] + list(_m.mod(WAS).funcs.values()),
                        "the distance must scale linearly with the masses")
     rule_e(ctx)
     rule_d(ctx)
